@@ -716,8 +716,17 @@ func callBuiltin(caller *frame, callpos token.Pos, fn *ssa.Builtin, args []value
 			}
 		case []value:
 			if len(x) > 0 {
-				// zero of element type is unknown here; use the first element's shape
-				panic(unsupported("clear(slice)"))
+				sig, _ := fn.Type().(*types.Signature)
+				if sig == nil || sig.Params().Len() != 1 {
+					panic(unsupported("clear(slice) without a typed signature"))
+				}
+				st, ok := sig.Params().At(0).Type().Underlying().(*types.Slice)
+				if !ok {
+					panic(unsupported("clear(%s)", sig.Params().At(0).Type()))
+				}
+				for k := range x {
+					x[k] = zero(st.Elem())
+				}
 			}
 		}
 		return nil
